@@ -3,8 +3,10 @@ mod gen;
 mod likely;
 mod model;
 mod obs;
+mod ops;
 mod props;
 mod run;
+mod values;
 
 use run::*;
 use std::path::PathBuf;
@@ -40,6 +42,27 @@ fn table() -> Vec<Prop> {
         replay: props::c03::replay,
         rule: props::c03::RULE,
         assumptions: &["the three-zone reference classifier (harness/src/model.rs) reads the property's wording leniently where it leaves room (DESIGN.md §5.1)", "ExtensionsMap::other is not compared"],
+    },
+    Prop {
+        id: "C04",
+        run: props::c04::run,
+        replay: props::c04::replay,
+        rule: props::c04::RULE,
+        assumptions: &["the independent canonicaliser and strict recogniser of harness/src/model.rs define 'canonical'; a key or tkey without a value is canonical (the property lists 'no true values')"],
+    },
+    Prop {
+        id: "C05",
+        run: props::c05::run,
+        replay: props::c05::replay,
+        rule: props::c05::RULE,
+        assumptions: &["ExtensionsMap::other is left empty, as the property states", "no oracle beyond the library's own == / Hash / Ord"],
+    },
+    Prop {
+        id: "C10",
+        run: props::c10::run,
+        replay: props::c10::replay,
+        rule: props::c10::RULE,
+        assumptions: &["the model normalises arguments with the reference recognisers of harness/src/model.rs", "a `true` value is dropped by setters exactly as by the parser", "maximize/minimize steps use the JSON-built likely-subtags reference; where C06 allows either answer the library's is adopted after checking that it keeps the given subtags and fills all three"],
     },
     Prop {
         id: "C15",
